@@ -102,7 +102,8 @@ def check_items(prop, items, seed=0, do_search=True, per=6):
         it.bpj = json.loads(r[1])
         it.harvest = r[2] if len(r) > 2 else None
         try:
-            defs, expr, meta = S.case_for(it.id, it.decls, it.bpj, entities=it.entities, c20=it.c20, mems=it.mems, harvest=it.harvest)
+            defs, expr, meta = S.case_for(it.id, it.decls, it.bpj, entities=it.entities, c20=it.c20, mems=it.mems, harvest=it.harvest,
+                                          parts=getattr(it, "parts", None))
         except bpexport.Unsupported as e:
             it.status = "violation"
             it.detail = {"kind": "unsupported-blueprint", "message": str(e)}
@@ -122,10 +123,13 @@ def check_items(prop, items, seed=0, do_search=True, per=6):
             continue
         if meta.get("c20_expr"):
             cases.append((it.id, defs, [("", expr), ("A", meta["c20_expr"])]))
+        elif meta.get("embed_expr"):
+            cases.append((it.id, defs, [("", expr), ("E", meta["embed_expr"])]))
         else:
             cases.append((it.id, defs, expr))
         defs_by[it.id] = defs
-    results, logs, cmd = H.shard_cases(prop, cases, S.EXTRA, per=per)
+    extra_imports = S.EXTRA + (" Proofs.EmbedProofs" if any(getattr(it, "parts", None) for it in items) else "")
+    results, logs, cmd = H.shard_cases(prop, cases, extra_imports, per=per)
     for it in items:
         if getattr(it, "meta", None) and it.meta.get("c20_expr"):
             it.c20_ok = bool(results.get(it.id + "A"))
@@ -133,6 +137,12 @@ def check_items(prop, items, seed=0, do_search=True, per=6):
     failing = []
     for cid, _, _ in cases:
         it = by_id[cid]
+        if getattr(it, "meta", None) and it.meta.get("embed_expr") and not results.get(str(cid) + "E"):
+            # the compiled program does not embed one of its parts as claimed: Props/C12.v does not apply
+            it.status = "violation"
+            it.detail = {"kind": "embedding of the independent parts not certified (embeds = false)",
+                         "parts": [r_ for _, r_ in getattr(it, "parts", [])], "failing_input": "none needed (structural)"}
+            continue
         if results[str(cid)]:
             it.status = "pass"
         else:
